@@ -287,6 +287,8 @@ class DirectCollocation(SamplingMethod):
                 value = ca.evalf(expr)
                 # Row vector if vector
                 if value.is_column() and var.is_scalar(): value = value.T
+                # A scalar guess applies to every entry of a vector-valued state (as with the other methods)
+                if is_states and value.is_scalar() and not var.is_scalar(): value = repmat(value, var.shape[0], var.shape[1])
                 if is_states:
                     if var.numel()*(self.N)==value.numel() or var.numel()*(self.N+1)==value.numel():
                         # every integrator point / collocation point of interval k takes column k; the final node takes the last column
